@@ -18,6 +18,10 @@ CLAIMED = {
    text="for every statement/expression form x 11 result types (incl. long double and four struct shapes): the emitted code is executed symbolically between two marker calls and z3 decides that the stack pointer and the x87 register-stack depth are identical before and after, for single statements and for one iteration of for/while/do bodies and for-increments (an inductive step); value-producing forms are checked by using the value; x87 over/underflow is a violation",
    note="trusts z3 and the asm executor; external callees assumed psABI-conforming; alloca/VLA exempt; asm statements outside",
    technique="SMT over symbolic execution of the emitted code, stack-pointer and x87-depth invariants between marker calls"),
+ "C04": dict(engine=E2, level="model_checking",
+   text="bit-field store/load for (base type, width, bit offset) triples with symbolic stored value and ALL other memory symbolic: read-back value, value of the assignment expression, op= and ++, neighbours and every byte outside the storage unit untouched; aggregate copies of 1..40 bytes; address computation of nested members and symbolic indices against the psABI layout model; frame layout (disjointness, alignment, containment) of local object lists; alloca/VLA alignment, disjointness and temporary relocation; zero-fill of partially initialised locals",
+   note="trusts z3 and the asm executor; pointer arguments are distinct objects outside the callee's frame; _Alignas > 16 on locals is a recorded finding; heavy alloca shapes only in the thorough tier",
+   technique="SMT over symbolic execution of the emitted code with per-object memory regions and a frame condition on all stores"),
  "C06": dict(engine=E2, level="model_checking",
    text="caller side and callee side are checked SEPARATELY against an independently written psABI model (classification of 22 struct/union shapes + 7 scalar classes, register/stack placement, hidden return pointer, 16-byte alignment, %al, callee-saved registers, x87 stack): every argument/return byte is symbolic and z3 decides that it sits in the psABI location, for each menu type placed after k INTEGER and j SSE arguments around register exhaustion; va_start image and va_arg walkers likewise; counterexamples are replayed between gcc-compiled and chibicc-compiled code",
    note="trusts z3, the asm executor, the psABI model in lib/abi.py (validated by the native gcc<->chibicc replays); padding bytes and >17 parameters outside",
